@@ -5,6 +5,14 @@
   document order; roots from the `schema` block (+ `extend schema`) or the default names; default
   literals coerced over the MERGED definitions (GraphQL spec: "Coercing Variable Values"/input coercion
   of constants; the coercion function itself is shared with the model — its theorems belong to C07).
+
+  `Declared` is COMPUTED with the model's member builders (`buildTypeDef`, `buildDirective`, `Env.of`), so it is a
+  convenient normal form, not an independent specification (audit 3, F2).  The independent one is
+  `DeclaredSpec` (Spec/SdlDeclared.lean: relations per attribute, no builder mentioned), with
+  `declared_meets_spec : Declared doc = some c → DeclaredSpec doc c` and `spec_determines` (at most one solution) in
+  Props/C11_declared.lean.  Likewise `SdlValid.declares` ("the member builders succeed") is EQUIVALENT to the named
+  type-system rules of Spec/SdlRules.lean: `declares_iff_rules` / `sdlValid_iff_rules` (Props/C11_rules.lean), and
+  every rule has its rejection theorem at `build` level in Props/C11_reject_complete.lean.
 -/
 import PyGqlModel.Sdl
 
@@ -49,6 +57,9 @@ structure SdlValid (doc : Doc) : Prop where
   oneSchema : (schemaDefs doc).length ≤ 1
   extTargets : ∀ e ∈ typeExts doc, ∃ t ∈ typeDefs doc, t.name = e.name ∧ t.kind = e.kind
   noBuiltinNames : ∀ t ∈ typeDefs doc, isDefaultName t.name = false
+  /-- every merged member satisfies its rules (references known, defaults coerce, `@deprecated` well-formed, enum values
+      unique and not reserved): stated through the builders here, equivalent to `DeclaresRules doc` — named clauses of
+      Spec/SdlRules.lean — by `declares_iff_rules` -/
   declares : (Declared doc).isSome
   mergedMembersUnique : ∀ t ∈ merged doc, (t.fields.map (·.name)).Nodup ∧ (t.inputFields.map (·.name)).Nodup
       ∧ (t.values.map (·.name)).Nodup ∧ t.members.Nodup ∧ t.interfaces.Nodup
